@@ -76,6 +76,13 @@ pub proof fn lemma_ref_sign(sign: Sign, d: int)
     if sign == Sign::Minus { assert(-1 * d == -d); }
 }
 
+// ------------------------------------------------------------------ R9: build-time configuration as uninterpreted symbols
+pub uninterp spec fn cfg_default_precision() -> u64;
+pub uninterp spec fn cfg_default_rounding_mode() -> RoundingMode;
+pub uninterp spec fn cfg_fmt_leading_zero_threshold() -> usize;
+pub uninterp spec fn cfg_fmt_trailing_zero_threshold() -> usize;
+pub uninterp spec fn cfg_fmt_max_integer_padding() -> usize;
+
 // derive(Clone) on the crate's structs (derives are dropped by R7; these bodies are what derive expands to)
 impl Clone for BigDecimal {
     fn clone(&self) -> (ret: BigDecimal) ensures ret.i() == self.i(), ret.s() == self.s() {
@@ -86,6 +93,10 @@ impl<'a> Clone for BigDecimalRef<'a> {
     fn clone(&self) -> (ret: Self) ensures ret == *self { *self }
 }
 impl<'a> Copy for BigDecimalRef<'a> {}
+impl Clone for RoundingMode {
+    fn clone(&self) -> (ret: Self) ensures ret == *self { *self }
+}
+impl Copy for RoundingMode {}
 impl Eq for BigDecimal {}
 impl<'a> Eq for BigDecimalRef<'a> {}
 
@@ -202,4 +213,23 @@ pub open spec fn ref_eq_spec<'a, 'b>(a: BigDecimalRef<'a>, b: BigDecimalRef<'b>)
 }
 pub open spec fn ref_cmp_spec<'a, 'b>(a: BigDecimalRef<'a>, b: BigDecimalRef<'b>) -> Ordering {
     if a.wf() && b.wf() { val_cmp(a.i(), a.s(), b.i(), b.s()) } else { ref_cmp_unspecified(a, b) }
+}
+
+pub proof fn lemma_round_int_sign(i: int, r: int, n: int, k: int, mode: RoundingMode, sign: Sign)
+    requires n == iabs(i), sign == sign_of(i), r == sgn(sign) * round_mag(n, k, mode, sign == Sign::Minus)
+    ensures r == round_int(i, k, mode)
+{}
+
+/// truncating division by 10^k is rounding Down
+pub proof fn lemma_trunc_is_round_down(i: int, k: int)
+    requires k >= 0
+    ensures tdiv(i, pow10(k)) == round_int(i, k, RoundingMode::Down)
+{
+    lemma_pow10_pos(k);
+    let p = pow10(k);
+    let n = iabs(i);
+    assert(round_mag(n, k, RoundingMode::Down, i < 0) == n / p);
+    if i == 0 { assert(0int / p == 0) by { lemma_div_basics(p); } }
+    else if i > 0 { assert(1 * (n / p) == n / p); }
+    else { assert(-1 * (n / p) == -(n / p)); }
 }
